@@ -42,6 +42,7 @@ func genSegment(p *PRNG) string {
 
 func runC20(r *RunCtx) error {
 	r.Sum.Rule = "random paths of 1..8 segments over arbitrary bytes (empty segments, UTF-8, double and trailing slashes), each run through types.MerklePath / AddToMerkle and the Gallina model with the executable SHA-256; non-trivial = distinct path string with at least one non-empty segment; filetree PostFile executed on the assembled app for a sample"
+	setBech32()
 	r.Group("fn", "From JK Require Import Corr.C20.", "c20_case", "c20_ok")
 	p := r.Rng
 	n := r.Scale(120, 1500)
@@ -134,6 +135,20 @@ func runC20(r *RunCtx) error {
 			}
 			if hp != fttypes.MerklePath(strings.Join(segs[:k-1], "/")) || hc != hexsha(segs[k-1]) {
 				r.Finding("C20/client-split", "MerkleHelper(parent/child) is not (MerklePath(parent), H(child))", map[string]interface{}{"path_hex": hex.EncodeToString([]byte(path)), "path": path})
+			}
+		}
+		// the package's own constructors of entries and messages from a plain path (types.CreateFolderOrFile,
+		// types.CreateMsgPostFile: what its tools, its simulation and programs linking it build records with): the
+		// record sits at the plain path's address, the message carries what MerkleHelper derives
+		if rec, rerr := fttypes.CreateFolderOrFile(Acct(1).String(), []string{Acct(1).String()}, []string{Acct(1).String()}, path); rerr == nil && rec != nil {
+			r.Count("cff:"+path, true)
+			if rec.Address != got {
+				r.Finding("C20/record-from-plain-path", "CreateFolderOrFile(path).Address != MerklePath(path): a record built from the plain path does not sit at the path's address", map[string]interface{}{"path_hex": hex.EncodeToString([]byte(path)), "path": path, "address": rec.Address, "merkle_path": got})
+			}
+		}
+		if pm, perr := fttypes.CreateMsgPostFile(Acct(1).String(), path, []byte("{}"), "tn"); perr == nil && pm != nil {
+			if pm.HashParent != hp || pm.HashChild != hc {
+				r.Finding("C20/record-from-plain-path", "CreateMsgPostFile(path) does not carry MerkleHelper(path)", map[string]interface{}{"path_hex": hex.EncodeToString([]byte(path)), "path": path})
 			}
 		}
 		// the helper a client hashes a child name with (types.HashThenHex) is plain hex(sha256(name)), whatever the name contains
